@@ -1,7 +1,7 @@
 (* Props/C01.v — property C01: SECS-II values round-trip and are encoded exactly as SEMI E5 prescribes.
    Theorems only; proofs are in Proofs/. *)
 From SG Require Import Base.Prelude Base.Kinds Base.Float Gen.VarConsts Spec.E5 Model.Secs2 Model.Denote Model.Secs2Wf.
-From SG Require Import Proofs.Secs2Enc Proofs.Secs2Dec.
+From SG Require Import Proofs.Secs2Enc Proofs.Secs2Dec Base.PyRt Gen.PyVarHdr Proofs.PyVarHdrProofs.
 From Coq Require Import Lia.
 Open Scope N_scope.
 
@@ -65,3 +65,21 @@ Proof.
   - exists (match denote sample_val with Some i => i | None => EL [] end). split; vm_compute; reflexivity.
   - vm_compute. lia.
 Qed.
+
+(* The tie for the item header is a theorem, not a sample: Base.encode_item_header and Base.decode_item_header, translated statement by
+   statement from secsgem/secs/variables/base.py on every run (harness/pyfuns.py -> Gen/PyVarHdr.v; Python ints are Z, exceptions are
+   Err), compute what the model computes - for every format code below 64, every length, every byte string and every position. *)
+Theorem C01_header_code_is_model :
+  (forall fc len, (fc < 64)%N -> base_encode_item_header (Z.of_N fc) (Z.of_N len) = encode_item_header fc len) /\
+  (forall fc data p, same_ok (base_decode_item_header (fc_z fc) data (Z.of_nat p))
+                             (do (rest, code, len, hl) <- decode_item_header fc (skipn p data);
+                              Ok (Z.of_nat p + Z.of_N hl, Z.of_N code, Z.of_N len)%Z)).
+Proof. exact (conj base_encode_item_header_is_model base_decode_item_header_is_model). Qed.
+Print Assumptions C01_header_code_is_model.
+
+(* the premise fc < 64 holds for every class of the regenerated table, and a negative or too large length is refused by the code as read *)
+Example C01_header_code_in_domain :
+  Forall (fun c => (c < 64)%N) ([fc_Array; fc_List; fc_Binary; fc_Boolean; fc_String; fc_JIS8] ++ map num_fc all_num_kinds) /\
+  base_encode_item_header 16 65536 = Ok [67; 1; 0; 0] /\ base_encode_item_header 16 (-1) = Err EValue /\
+  base_encode_item_header 16 16777216 = Err EValue /\ base_decode_item_header (-1) [0; 0; 0xB2; 1; 2; 9] 2 = Ok (5, 44, 258)%Z.
+Proof. split; [repeat constructor|repeat split]; vm_compute; reflexivity. Qed.
